@@ -38,6 +38,12 @@ RoundAt(t) == IF t < 0 THEN 0 ELSE (t \div Period) + 1
 HeadOf(st) == IF DOMAIN st = {} THEN -1 ELSE CHOOSE r \in DOMAIN st : \A q \in DOMAIN st : q <= r
 ThrOf(n) == IF epochOf[n] \in DOMAIN epochs THEN epochs[epochOf[n]].t ELSE cfg.t
 
+\* C07: the epoch whose share must sign round r at node n: the latest epoch that n belongs to
+\* and whose transition round is <= r (epoch 0 has transition round 0).
+DueEpoch(n, r) == LET E == {x \in DOMAIN epochs : n \in epochs[x].members /\ epochs[x].tround <= r}
+                  IN IF E = {} THEN -1 ELSE CHOOSE x \in E : \A y \in E : y <= x
+
+
 Alarm(mon, e, detail) == [mon |-> mon, scenario |-> cfg.scenario, ev |-> e.ev, line |-> l, detail |-> detail]
 If(c, S) == IF c THEN S ELSE {}
 
@@ -61,7 +67,7 @@ StepInit(e) ==
   /\ got' = [n \in NodesT |-> {}] /\ signed' = [n \in NodesT |-> {}]
   /\ lastTick' = [n \in NodesT |-> [round |-> 0, cause |-> "none"]]
   /\ epochOf' = [n \in NodesT |-> 0]
-  /\ epochs' = (0 :> [t |-> e.t, tround |-> 0, members |-> 0..(e.n - 1)])
+  /\ epochs' = (0 :> [t |-> e.t, tround |-> 0, members |-> Range(e.group)])
   /\ upN' = [n \in NodesT |-> FALSE] /\ healedAt' = -1
   /\ alarms' = alarms
 
@@ -95,9 +101,19 @@ StepBcast(e) ==
 StepSend(e) ==
   /\ e.ev = "Send"
   /\ alarms' = alarms \cup If(e.clock < TimeOf(e.round), {Alarm("NoEarlyPartial", e, EarlyDetail(e.from, e.round))})
+                      \cup If("sigEpoch" \in DOMAIN e /\ DueEpoch(e.from, e.round) >= 0 /\ e.sigEpoch # DueEpoch(e.from, e.round),
+                              {Alarm("WrongShareEpoch", e, IF e.sigEpoch < DueEpoch(e.from, e.round) THEN "old share used at or after the transition round" ELSE "new share used before the transition round")})
   /\ Keep(<<cfg, clk, store, got, signed, lastTick, epochOf, epochs, upN, healedAt>>)
 
-\* ProcessPartialBeacon: what may reach the aggregator
+\* a partial is handed to ProcessPartialBeacon (logged before the call)
+StepDeliver(e) ==
+  /\ e.ev = "Deliver"
+  /\ got' = IF e.valid /\ e.member /\ ~e.own THEN [got EXCEPT ![e.to] = @ \cup {<<e.round, e.prevd, e.idx, e.epoch>>}] ELSE got
+  /\ epochOf' = IF e.epoch >= 0 THEN [epochOf EXCEPT ![e.to] = e.epoch] ELSE epochOf
+  /\ alarms' = alarms
+  /\ Keep(<<cfg, clk, store, signed, lastTick, epochs, upN, healedAt>>)
+
+\* ProcessPartialBeacon returned: what may have reached the aggregator
 StepRecv(e) ==
   /\ e.ev = "Recv"
   /\ LET acc == "accepted" \in DOMAIN e /\ e.accepted
@@ -107,13 +123,12 @@ StepRecv(e) ==
          A4 == If(acc /\ e.round > RoundAt(e.toClock) + 1, {Alarm("AcceptedFuturePartial", e, e.kind)})
          A5 == If(e.res \in {"blocked", "panic"}, {Alarm("HandlerDidNotReturn", e, e.res)})
      IN /\ alarms' = alarms \cup A1 \cup A2 \cup A3 \cup A4 \cup A5
-        /\ got' = IF acc /\ e.valid /\ e.member /\ ~e.own
-                    THEN [got EXCEPT ![e.to] = @ \cup {<<e.round, e.prevd, e.idx>>}]
-                    ELSE got
+        /\ got' = IF ~acc /\ "idx" \in DOMAIN e THEN [got EXCEPT ![e.to] = {x \in @ : ~(x[1] = e.round /\ x[2] = e.prevd /\ x[3] = e.idx)}] ELSE got
         /\ epochOf' = IF "epoch" \in DOMAIN e /\ e.epoch >= 0 THEN [epochOf EXCEPT ![e.to] = e.epoch] ELSE epochOf
   /\ Keep(<<cfg, clk, store, signed, lastTick, epochs, upN, healedAt>>)
 
-Signers(n, r, prevd) == {x[3] : x \in {y \in got[n] : y[1] = r /\ (y[2] = prevd \/ ~cfg.chained)}}
+\* distinct signers whose partial for exactly (r, prevd) was valid under the epoch that is due for round r
+Signers(n, r, prevd, ep) == {x[3] : x \in {y \in got[n] : y[1] = r /\ (y[2] = prevd \/ ~cfg.chained) /\ y[4] = ep}}
 
 StepStorePut(e) ==
   /\ e.ev = "StorePut"
@@ -123,7 +138,9 @@ StepStorePut(e) ==
          hd == HeadOf(st)
          fresh == ok /\ e.round \notin DOMAIN st
          ownCount == IF e.round \in signed[n] THEN 1 ELSE 0
-         cnt == Cardinality(Signers(n, e.round, e.prevd)) + ownCount
+         due == IF DueEpoch(n, e.round) >= 0 THEN DueEpoch(n, e.round) ELSE epochOf[n]
+         thrDue == IF due \in DOMAIN epochs THEN epochs[due].t ELSE cfg.t
+         cnt == Cardinality(Signers(n, e.round, e.prevd, due)) + ownCount
          A1 == If(ok /\ e.round > 0 /\ ~e.verifies, {Alarm("StoredUnverifiable", e, IF e.agg THEN "aggregation" ELSE "sync")})
          A2 == If(fresh /\ e.round > 0 /\ hd >= 0 /\ e.round # hd + 1, {Alarm("GapOrOutOfOrder", e, IF e.agg THEN "aggregation" ELSE "sync")})
          A3 == If(ok /\ e.round \in DOMAIN st /\ st[e.round] # <<e.sigd, e.prevd>>, {Alarm("Rewrite", e, "different value for a stored round")})
@@ -131,7 +148,7 @@ StepStorePut(e) ==
                   {Alarm("BadLink", e, "previous signature is not the stored signature of round-1")})
          A5 == If(\E m \in NodesT : e.round \in DOMAIN store[m] /\ ok /\ e.round > 0 /\ store[m][e.round][1] # e.sigd,
                   {Alarm("Disagreement", e, "two nodes hold different beacons for one round")})
-         A6 == If(fresh /\ e.agg /\ ~e.sync /\ e.round > 0 /\ cnt < ThrOf(n),
+         A6 == If(fresh /\ e.agg /\ ~e.sync /\ e.round > 0 /\ cnt < thrDue,
                   {Alarm("BelowThreshold", e, "aggregated with fewer valid distinct partials than the threshold")})
          A7 == If(fresh /\ e.round > 0 /\ \A m \in NodesT : upN[m] => RoundAt(clk[m]) + 1 < e.round,
                   {Alarm("BeaconBeforeItsTime", e, "round stored while every clock is more than one round behind")})
@@ -199,7 +216,11 @@ StepQuiesce(e) ==
          A1 == If(live /\ Cardinality(ups) >= cfg.t /\ \E n \in ups : e.heads[n + 1] < due,
                   {Alarm("NoProgress", e, e.label)})
          A2 == If(\E n \in ups : e.heads[n + 1] > RoundAt(e.clocks[n + 1]) + 1, {Alarm("HeadBeyondClock", e, "head more than one round ahead of the node's clock")})
-     IN alarms' = alarms \cup A1 \cup A2
+         \* C07: at quiescence the vault of every running node holds the epoch that is due for the next round
+         A3 == If("epochs" \in DOMAIN e /\ \E n \in ups : e.heads[n + 1] >= 0 /\ DueEpoch(n, e.heads[n + 1] + 1) >= 0
+                                                          /\ e.epochs[n + 1] # DueEpoch(n, e.heads[n + 1] + 1),
+                  {Alarm("VaultEpoch", e, "live group/share is not the one due after the stored head")})
+     IN alarms' = alarms \cup A1 \cup A2 \cup A3
   /\ Keep(<<cfg, clk, store, got, signed, lastTick, epochOf, epochs, upN, healedAt>>)
 
 \* conformance of a scripted TLC behaviour: the model's heads vs the observed heads
@@ -227,7 +248,7 @@ Other(e) ==
 TraceNext ==
   /\ l <= Len(TraceLog)
   /\ LET e == TraceLog[l] IN
-       \/ StepInit(e) \/ StepClock(e) \/ StepTick(e) \/ StepBcast(e) \/ StepSend(e) \/ StepRecv(e)
+       \/ StepInit(e) \/ StepClock(e) \/ StepTick(e) \/ StepBcast(e) \/ StepSend(e) \/ StepDeliver(e) \/ StepRecv(e)
        \/ StepStorePut(e) \/ StepStart(e) \/ StepStop(e) \/ StepSyncItem(e) \/ StepScan(e)
        \/ StepReshare(e) \/ StepCatchupFire(e) \/ StepQuiesce(e) \/ StepExpect(e) \/ StepTransition(e) \/ Other(e)
   /\ l' = l + 1
